@@ -3,6 +3,8 @@ import itertools, re
 from hutil import S, unS, err
 
 MODEL = "C11"
+MODEL_ENTRY = "run_C11IO"       # Model/OutputIO.v: everything run_C11 answers; programs may hold IO-level calls, compiled by the model
+IO_NAMES = ["write", "write_line", "write_raw", "write_line_raw", "error", "error_line", "error_raw", "error_line_raw"]
 PROP_FILES = ["Props/C11.v"]
 RULE = ("(a) messages built from a grammar of nested named, inline (also foreground + background + options together) and unknown "
         "tags, bare '<' '>', newlines, non-ASCII (incl. the four code points that fold into a-z) plus a malformed stream (unbalanced, "
@@ -17,7 +19,10 @@ RULE = ("(a) messages built from a grammar of nested named, inline (also foregro
         "single-output level (depth <= 4) left normally, by an Exception or by a KeyboardInterrupt / SystemExit (a BaseException "
         "only), with sections taken inside scopes (io.section(): the body runs on a section that starts with the indentation in "
         "force), on ANSI/plain/null formatters, ANSI and plain streams, plain outputs and section outputs; texts include lines of "
-        "white space only (not empty: indented); non-trivial = a message with >= 1 recognised tag / a style with >= 1 code / a "
+        "white space only (not empty: indented); the writes made through the I/O are IO-level statements which the MODEL compiles "
+        "(Model/OutputIO.v); every writer C10's reflection finds on every I/O class is called with a text that ends in no line feed "
+        "and (which stream, ends the line?) is compared with the model's table of the eight IO methods; the method-table cases of "
+        "the line-writing methods also run on BufferedIO, ConsoleIO, NullIO; non-trivial = a message with >= 1 recognised tag / a style with >= 1 code / a "
         "history with an add_style / a program with >= 1 scope and >= 1 write; distinct by request")
 TRUSTED = ["pastel (external library) is modelled by hand in Model/Markup.v from its source; the model is compared with the "
            "installed pastel on every run through clikit's formatters"]
@@ -150,6 +155,9 @@ def gen(rng, tier, info):
     n_prog = {"quick": 6000, "thorough": 60000, "search": 1500}[tier]
     colors = COLORS18 if tier == "thorough" else COLORS10
     cases = [{"k": 4}]          # the writing methods the programs use are ALL the line / text writing methods reflection finds
+    # the writers reflection finds on every I/O class, each CALLED: which stream the text goes to, whether the call ends the line -
+    # against the model's table of the eight IO methods (Model/GateIO.v io_delegate, Model/OutputIO.v is_line_method)
+    cases.append({"k": 5})
     # (a) messages
     for m in MALFORMED:
         cases.append({"k": 0, "set": None, "added": [], "percall": None, "msgs": [m], "plain": [None], "malformed": True})
@@ -233,6 +241,12 @@ def gen(rng, tier, info):
                         if not via:
                             c["via_io"] = False
                         cases.append(c)
+                        if via and m in (1, 3) and ti % 3 == 0:
+                            # the line-writing methods of the OTHER I/O classes (they inherit IO's; an override is compared)
+                            for T in ("BufferedIO", "ConsoleIO", "NullIO"):
+                                if T == "NullIO" and conf[2]:
+                                    continue               # NullIO().section() raises TypeError (props/C10.py UNCALLABLE)
+                                cases.append(dict(c, T=T))
     # a write that fails on an invalid style, then a decorated write: the decoration must still be there
     for conf in confs:
         for t in range(2):
@@ -283,19 +297,21 @@ def text_of(ti):
     return W_TEXTS[ti][0] if ti >= 0 else W_BAD[-1 - ti]
 
 
-def w_prog(p):
+def w_prog(p, via_io=False):
+    """via_io: the writes are calls of the I/O's own methods - statement 5, which the MODEL compiles (Model/OutputIO.v io_stmt);
+    otherwise they are calls on io.output / io.error_output - statement 0"""
     out = []
     for s in p:
         if s[0] == "w":
-            out.append([0, s[1], s[2], S(text_of(s[3]))])
+            out.append([5, 4 * s[1] + s[2], S(text_of(s[3]))] if via_io else [0, s[1], s[2], S(text_of(s[3]))])
         elif s[0] == "scope":
-            out.append([1, s[1], s[2], s[3], w_prog(s[4])])
+            out.append([1, s[1], s[2], s[3], w_prog(s[4], via_io)])
         elif s[0] == "raise":
             out.append([2])             # (which exception it is makes no difference to a with-block: the model has one)
         elif s[0] == "insec":
-            out.append([4, w_prog(s[1])])
+            out.append([4, w_prog(s[1], via_io)])
         else:
-            out.append([3, w_prog(s[1])])
+            out.append([3, w_prog(s[1], via_io)])
     return out
 
 
@@ -307,6 +323,8 @@ WRITERS = sorted(["write", "write_line", "write_raw", "write_line_raw", "error",
 
 def wire(c):
     if c["k"] == 4:
+        return [8]             # (no such request: the table WRITERS is the expectation, see canon_model)
+    if c["k"] == 5:
         return [9]
     if c["k"] == 0:
         st = c["set"] if c["set"] is not None else default_set()
@@ -317,12 +335,14 @@ def wire(c):
         return [3, [w_style(s)[0] for s in default_set()],
                 [[0, S(x[1]), w_style(x[2])] if x[0] == "f" else [1, S(x[1])] if x[0] == "r" else [2, w_style(x[1])[0]] for x in c["steps"]]]
     sa, fk, sec = c["conf"]
-    return [1, sa, fk, sec, [w_style(s)[0] for s in default_set()], w_prog(c["prog"])]
+    return [1, sa, fk, sec, [w_style(s)[0] for s in default_set()], w_prog(c["prog"], c.get("via_io", True))]
 
 
 def describe(c):
     if c["k"] == 4:
         return "reflection: the public members of the Output / IO classes that write"
+    if c["k"] == 5:
+        return "reflection: every writer of every I/O class called with 'MARK' - which stream, does the call end the line"
     if c["k"] == 0:
         return "formatters(style set=%r, add_style=%r).format(m, style=%r) for m in %r" % (c["set"] or "default", c["added"], c["percall"], c["msgs"])
     if c["k"] == 3:
@@ -331,7 +351,7 @@ def describe(c):
             for x in c["steps"])
     if c["k"] == 2:
         return "one AnsiFormatter(); " + "; ".join("format(%r, style=%r)" % (m, st) for m, st in c["calls"]) + (" (one Style object refined between the calls)" if c["refine"] else " (a new Style per call)")
-    return "IO(stream ansi=%d, formatter=%s, section=%d): %r" % (c["conf"][0], ["Ansi", "Ansi(forced)", "Plain", "Null"][c["conf"][1]], c["conf"][2],
+    return "%s(stream ansi=%d, formatter=%s, section=%d): %r" % (c.get("T", "IO"), c["conf"][0], ["Ansi", "Ansi(forced)", "Plain", "Null"][c["conf"][1]], c["conf"][2],
                                                                   c["prog"])
 
 
@@ -366,6 +386,8 @@ def run_impl(c):
         from props import C10
         found = C10.discover()
         return [0, sorted(set(e["name"] for e in found["entries"] if e["writer"]))]
+    if c["k"] == 5:
+        return io_writer_table()
     if c["k"] == 0:
         st = c["set"] if c["set"] is not None else default_set()
 
@@ -456,6 +478,13 @@ def run_impl(c):
     mkf = lambda: [lambda: AnsiFormatter(), lambda: AnsiFormatter(forced=True), lambda: PlainFormatter(), lambda: NullFormatter()][fk]()
     so, se = Stream(), Stream()
     io = IO(Input(StringInputStream("")), Output(so, mkf()), Output(se, mkf()))
+    if c.get("T"):
+        # another I/O class on the same outputs (BufferedIO / NullIO build their own streams: the class on OUR outputs)
+        from props import C10
+        cls = C10.io_classes()[c["T"]]
+        io2 = cls.__new__(cls)
+        IO.__init__(io2, io.input, io.output, io.error_output)
+        io = io2
     if sec:
         io = io.section()
     meths = [["write", "write_line", "write_raw", "write_line_raw"], ["error", "error_line", "error_raw", "error_line_raw"]]
@@ -492,6 +521,40 @@ def run_impl(c):
     return [0, S(so.fetch()), S(se.fetch()), io.output._indent, io.error_output._indent, raised]
 
 
+def io_writer_table():
+    """C10's reflection (every public member of every I/O class called on recording streams) gives the writers; every writer of
+    every I/O class is then CALLED with a text that ends in no line feed, at verbosity DEBUG: which of the two streams grew, and
+    does what was appended end in a line feed.  -> [0, [[error stream?, ends the line?] for the eight methods], [anything else]]"""
+    from props import C10
+    found = C10.discover()
+    rows, odd = {}, []
+    for t in found["targets"]:
+        if t["kind"] != "io":
+            continue
+        names = sorted(e["name"] for e in found["entries"] if e["cls"] == t["cls"] and e["writer"])
+        for n in names:
+            if n not in IO_NAMES:
+                odd.append("%s.%s writes and is not in the table" % (t["cls"], n))
+        for n in IO_NAMES:
+            if n not in names:
+                odd.append("%s.%s does not write" % (t["cls"], n))
+                continue
+            x = C10.target(C10.io_classes()[t["cls"]], 0, 2)
+            for o in x.outs:
+                o.set_verbosity(4)
+            getattr(x.obj, n)("MARK")
+            a, b = x.so.fetch(), x.se.fetch()
+            if bool(a) == bool(b):
+                odd.append("%s.%s writes to %s" % (t["cls"], n, "both streams" if a else "no stream"))
+                continue
+            row = [1 if b else 0, 1 if (a or b).endswith("\n") else 0]
+            if (a or b) not in ("MARK", "MARK\n"):
+                odd.append("%s.%s('MARK') puts %r on the stream" % (t["cls"], n, a or b))
+            if rows.setdefault(n, row) != row:
+                odd.append("%s.%s differs from the other classes" % (t["cls"], n))
+    return [0, [rows.get(n, [-1, -1]) for n in IO_NAMES], sorted(odd)]
+
+
 def io_routes(c, i):
     """is message i of a k = 0 case also rendered through IO / Output / SectionOutput?  (in the table of all styles: the message
     that gets the style for the single call)"""
@@ -501,6 +564,8 @@ def io_routes(c, i):
 def canon_impl(c, o):
     if c["k"] == 4:
         return [0, [S(x) for x in o[1]]]
+    if c["k"] == 5:
+        return [0, o[1]] + ([[S(x) for x in o[2]]] if o[2] else [])
     return o
 
 
@@ -570,6 +635,17 @@ def spec_prog(prog, conf):
 
 
 def oracle(c, o):
+    if c["k"] == 5:
+        if o[2]:
+            return "io-writer-outside-the-table:" + "; ".join(o[2])[:200]
+        for n, (e, line) in zip(IO_NAMES, o[1]):
+            # the property: a line-writing method (its name says so) emits the text followed by exactly one newline - and a
+            # method that is not one adds none; error* write to the error output, the others to the standard output
+            if bool(line) != ("line" in n):
+                return "line-method-does-not-end-the-line:%s" % n
+            if bool(e) != n.startswith("error"):
+                return "wrong-stream:%s" % n
+        return None
     if c["k"] == 4:
         extra = [x for x in o[1] if x not in WRITERS]
         return ("writing-method-outside-the-table:" + ",".join(extra)) if extra else None
@@ -698,7 +774,7 @@ def oracle(c, o):
 
 
 def nontrivial_key(c, o):
-    if c["k"] == 4:
+    if c["k"] in (4, 5):
         return None
     if c["k"] == 0:
         if c.get("style"):
